@@ -22,13 +22,11 @@ the implementation's results, independent of the model:
                independently written one), sums to 1 on the trace-preserving class
   O_measure    measure() = squared amplitudes (pure) / the same distribution (mixed)
   O_is_mixed   is_mixed = "bits and qubits at some layer, or a mixed box"
-Known findings, recognised ONLY when the implementation's outcome equals the
-bug-compatible model's outcome AND the precise trigger box is being evaluated:
-  F9   Measure(override_bits=True) / Encode(reset_bits=True): AttributeError
-  F9b  Encode(n >= 1, constructive=False) (= Measure(destructive=False).dagger()) is
-       declared bit ** n -> qubit ** n: circuits with it cannot be evaluated, daggers of
-       circuits with Measure(destructive=False) are ill-typed
-anything else is a VIOLATION."""
+There are no known findings: F9 (Measure(override_bits=True) could not be
+evaluated) and F9b (Encode(constructive=False) / Encode(reset_bits=True) were
+declared bit ** n -> qubit ** n) were found by this machinery and repaired upstream
+(fix commits 77ff08b, 1971467); their minimal inputs are the first corpus cases,
+as regression, and any oracle failure is a VIOLATION."""
 import itertools
 import os
 import random
@@ -161,7 +159,7 @@ def runs(scan, w):
     return out
 
 
-def rand_layer(ci, rng, scan, tp_only=False, buggy=0.06):
+def rand_layer(ci, rng, scan, tp_only=False, buggy=0.2):
     """(off, box) that fits on scan and keeps <= 2 bits and <= 2 qubits."""
     nbits, nqub = scan.count(B), scan.count(Q)
     kinds = ["g1", "g1", "g2", "ket", "measure", "measure", "discard", "classical", "copy",
@@ -192,7 +190,7 @@ def rand_layer(ci, rng, scan, tp_only=False, buggy=0.06):
         if k == "measure" and nqub:
             o, n = rng.choice(runs(scan, Q))
             d = 1 if rng.random() < 0.6 else 0
-            over = 1 if (not tp_only and rng.random() < buggy) else 0
+            over = 1 if rng.random() < buggy else 0
             if over:
                 if scan[o + n:o + 2 * n] != [B] * n:
                     continue
@@ -204,12 +202,18 @@ def rand_layer(ci, rng, scan, tp_only=False, buggy=0.06):
             return o, measure(n, d, 0)
         if k == "encode" and nbits:
             o, n = rng.choice(runs(scan, B))
-            if nqub + n > 2:
-                continue
             r = rng.random()
             if tp_only or r > 2 * buggy:
+                if nqub + n > 2:
+                    continue
                 return o, encode(n, 1, 0)
-            return o, encode(n, 0 if r < buggy else 1, 0 if r < buggy else 1)
+            if r < buggy:                      # Encode(constructive=False): qubit ** n @ bit ** n -> qubit ** n
+                if o < n or scan[o - n:o] != [Q] * n:
+                    continue
+                return o - n, encode(n, 0, 0)
+            if nqub + n > 2:                   # Encode(reset_bits=True): bit ** n -> qubit ** n @ bit ** n
+                continue
+            return o, encode(n, 1, 1)
         if k == "discard":
             o = rng.randint(0, len(scan))
             n = rng.randint(0, min(3, len(scan) - o))
@@ -253,7 +257,7 @@ def rand_ty(rng, max_b=2, max_q=2):
     return ty
 
 
-def grow(ci, rng, dom, nboxes, tp_only=False, buggy=0.06):
+def grow(ci, rng, dom, nboxes, tp_only=False, buggy=0.2):
     scan, layers = list(dom), []
     for _ in range(nboxes):
         off, b = rand_layer(ci, rng, scan, tp_only=tp_only, buggy=buggy)
@@ -289,16 +293,17 @@ def corpus(ci):
         out.append(case("corpus", p, obs=obs, **more))
     # the minimal inputs of the findings first
     add([2, [3, circ([], [(0, ket(0))]), circ([], [(0, bits(0))])], circ([Q, B], [(0, measure(1, 1, 1))])])
-    add(circ([B], [(0, encode(1, 1, 1))]))
-    add(circ([B], [(0, encode(1, 0, 0))]))
-    add(circ([], [(0, bits(0)), (0, encode(1, 0, 0))]))
+    add(circ([B], [(0, encode(1, 1, 1))]), dagger=True)
+    add(circ([Q, B], [(0, encode(1, 0, 0))]), dagger=True)
+    add(circ([], [(0, ket(0)), (1, bits(0)), (0, encode(1, 0, 0))]), dagger=True)
     add(circ([], [(0, ket(0)), (0, measure(1, 0, 0))]), dagger=True)
+    add(circ([], [(0, ket(1)), (1, bits(0)), (0, measure(1, 1, 1))]), obs=[0, 1, 2, 3, 5], dagger=True)
     # every variant of the boxes of the statement, alone
     for n in range(3):
         for d in (0, 1):
             for o in (0, 1):
-                add(circ([Q] * n + ([B] * n if o else []), [(0, measure(n, d, o))]), dagger=(n <= 1))
-                add(circ([B] * n, [(0, encode(n, d, o))]), dagger=(n <= 1))
+                add(circ(ci.box_dom(measure(n, d, o)), [(0, measure(n, d, o))]), dagger=(n <= 1))
+                add(circ(ci.box_dom(encode(n, d, o)), [(0, encode(n, d, o))]), dagger=(n <= 1))
     for ty in all_types():
         if len(ty) <= 3:
             add(circ(ty, [(0, discard(*ty))]), dagger=True)
@@ -337,7 +342,7 @@ def corpus(ci):
         obs=[0, 1, 2, 3, 5])
     add(circ([], [(0, ket(0, 0)), (0, H), (0, CX), (0, measure(2))]), obs=[0, 1, 2, 3, 5])
     add(circ([], [(0, ket(0, 0)), (0, H), (0, CX), (1, discard(Q))]), obs=[0, 1, 2, 3, 5])
-    add(circ([], [(0, ket(0, 0)), (0, H), (0, CX), (0, measure(1, 0)), (2, discard(B))]),
+    add(circ([], [(0, ket(0, 0)), (0, H), (0, CX), (0, measure(1, 0)), (1, discard(B))]),
         obs=[0, 1, 2, 3, 5])
     add(circ([], [(0, ket(0, 0)), (0, CX), (0, [3, [1, 2, 4]]), (0, measure(1)), (1, discard(Q))]),
         obs=[0, 1, 2, 3, 5])
@@ -361,7 +366,8 @@ def corpus(ci):
 
 PLACED = [H, S, SDG, [1, 1, 5], CX, [4, 1, 7], SWAP, ket(1), bra(0), bits(1), bits(0, dag=1), COPY,
           MATCH, NOT, discard(Q), discard(B), mixedstate(Q), mixedstate(B), measure(1, 1),
-          measure(1, 0), measure(2, 1), encode(1), encode(2), mscalar([3], 4), [8, [0, 0, 0, 0, 0, 1], 1]]
+          measure(1, 0), measure(2, 1), measure(1, 1, 1), measure(1, 0, 1), encode(1), encode(2),
+          encode(1, 0, 0), encode(1, 1, 1), mscalar([3], 4), [8, [0, 0, 0, 0, 0, 1], 1]]
 
 
 def placements(ci, tier):
@@ -385,8 +391,8 @@ def placements(ci, tier):
                 after = scan[:off] + c + scan[off + len(d):]
                 if after.count(B) > 2 or after.count(Q) > 2:
                     continue
-                out.append(case("placement", circ(scan, [(off, b)]),
-                                dagger=(len(scan) <= 3)))
+                out.append(case("placement", circ(scan, [(off, b)]), obs=[0, 2],
+                                dagger=(len(scan) <= 2)))
     return out
 
 
@@ -416,23 +422,24 @@ def gen_cases(ci, rng, tier):
     scale = 1 if tier == "quick" else 8
     cases = corpus(ci) + placements(ci, tier)
     # random mixed circuits (small domains, any boxes)
-    for _ in range(450 * scale):
+    for _ in range(200 * scale):
         dom = rand_ty(rng) if rng.random() < 0.5 else rand_ty(rng, 1, 1)
         layers, _ = grow(ci, rng, dom, rng.randint(1, 6))
         cases.append(case("random", circ(dom, layers), obs=[0, 1, 2] + rng.choice([[], [3], [5], [3, 5]]),
                           dagger=rng.random() < 0.3))
     # the trace-preserving class, mostly from the empty domain
-    for _ in range(350 * scale):
+    for _ in range(140 * scale):
         dom = [] if rng.random() < 0.7 else rand_ty(rng, 1, 1)
         layers, _ = grow(ci, rng, dom, rng.randint(1, 7), tp_only=True)
         cases.append(case("tp", circ(dom, layers), obs=[0, 1, 2, 3, 5]))
     # pure circuits: doubling, measure()
-    for _ in range(200 * scale):
+    for _ in range(80 * scale):
         n = rng.randint(0, 2)
         layers, _ = pure_layers(rng, n, rng.randint(1, 6))
-        cases.append(case("pure", circ([Q] * n, layers), obs=[0, 1, 2, 3, 4, 5], dagger=rng.random() < 0.3))
+        cases.append(case("pure", circ([Q] * n, layers), obs=[0, 1, 2] + rng.choice([[4], [4], [3], [5], [3, 4, 5]]),
+                          dagger=rng.random() < 0.3))
     # Born rule / marginals: a state, then Measure / Discard
-    for _ in range(120 * scale):
+    for _ in range(50 * scale):
         n = rng.randint(1, 2)
         layers, w = pure_layers(rng, 0, rng.randint(1, 5))
         if w == 0:
@@ -441,8 +448,8 @@ def gen_cases(ci, rng, tier):
         state = circ([], layers)
         d = rng.randrange(2)
         cases.append(case("born", [2, state, circ([Q] * w, [(0, measure(w, d))])], born=(state, w, d)))
-    for _ in range(150 * scale):
-        layers, scan = grow(ci, rng, [], rng.randint(1, 5), buggy=0)
+    for _ in range(60 * scale):
+        layers, scan = grow(ci, rng, [], rng.randint(1, 5))
         if not scan:
             continue
         k = rng.randrange(len(scan))
@@ -450,7 +457,7 @@ def gen_cases(ci, rng, tier):
         cases.append(case("marginal", [2, base, circ(scan, [(k, discard(scan[k]))])],
                           marginal=(base, scan, k)))
     # combinations: dagger / >> / @ / init_and_discard
-    for _ in range(200 * scale):
+    for _ in range(80 * scale):
         a_dom = rand_ty(rng, 1, 1)
         la, a_cod = grow(ci, rng, a_dom, rng.randint(0, 3))
         a = circ(a_dom, la)
@@ -479,7 +486,7 @@ def malformed(ci, rng, count):
     while len(out) < count:
         kind = rng.choice(["offset", "kind", "kind", "then", "then"])
         dom = rand_ty(rng)
-        layers, scan = grow(ci, rng, dom, rng.randint(1, 4), buggy=0)
+        layers, scan = grow(ci, rng, dom, rng.randint(1, 4))
         if kind == "offset":
             i = rng.randrange(len(layers))
             pre = dom
@@ -499,7 +506,7 @@ def malformed(ci, rng, count):
             other = rand_ty(rng)
             if other == scan:
                 continue
-            lb, _ = grow(ci, rng, other, rng.randint(0, 2), buggy=0)
+            lb, _ = grow(ci, rng, other, rng.randint(0, 2))
             p = [2, circ(dom, layers), circ(other, lb)]
         if ci.flatten(p) is not None:
             continue
@@ -546,22 +553,6 @@ def under_dagger(p, flag=False):
     if op == 4:
         return under_dagger(p[1], flag)
     return under_dagger(p[1], flag) + under_dagger(p[2], flag)
-
-
-def triggers(ci, p):
-    """which known-finding triggers a program contains"""
-    f9 = f9b = False
-    for b, dag in under_dagger(p):
-        if ci.f9_trigger(b):
-            f9 = True
-        if ci.f9b_trigger(b):
-            f9b = True
-        # the dagger of a Measure / Encode with a flag set does not have the transposed type
-        if dag and b[0] in (ci.B_MEASURE, ci.B_ENCODE) and b[1] >= 1 and (not b[2] or b[3]):
-            f9b = True
-        if b[0] == ci.B_ENCODE and b[3] and b[1] >= 1:
-            f9b = True                       # Encode(reset_bits=True): declared cod lacks the bits
-    return f9, f9b
 
 
 def nonreal_mixed_scalar(ci, p):
@@ -623,6 +614,35 @@ def marginal_value(v, scan, k):
     return ["cq", c, q, c2, q2 - 1, a.flatten()]
 
 
+# ------------------------------------------------------------------ implementation side
+_CI = None
+
+
+def _impl_case(c):
+    """every request of one case on the implementation: ({key: outcome}, counters, classes)"""
+    ci = _CI
+    before = dict(ci.COUNTS)
+    out, by_prog = {}, {}
+    for key, r in c["reqs"]:
+        by_prog.setdefault(common.to_sexp(r[1]), []).append((key, r))
+    for group in by_prog.values():
+        outs = ci.observe_many(group[0][1][1], [r[0] for _, r in group])
+        for key, r in group:
+            out[key] = outs[r[0]]
+    return out, {k: ci.COUNTS[k] - before[k] for k in before}, list(ci.UNKNOWN_CLASSES)
+
+
+def impl_parallel(ci, cases):
+    global _CI
+    _CI = ci
+    jobs = int(os.environ.get("VERIF_C12_JOBS", "8"))
+    if jobs <= 1:
+        return [_impl_case(c) for c in cases]
+    import multiprocessing
+    with multiprocessing.get_context("fork").Pool(jobs) as pool:
+        return pool.map(_impl_case, cases, chunksize=4)
+
+
 # ------------------------------------------------------------------ settle
 def settle(rep, ci, proof_ok):
     found = any(f for _, _, f in rep.violations)
@@ -663,16 +683,6 @@ class Verdicts:
         self.rep.violation("%s: %s" % (oracle, what), payload)
 
 
-F9_WHAT = ("Measure(override_bits=True) / Encode(reset_bits=True) cannot be evaluated: "
-           "cqmap.Functor._ar passes a Dim to CQMap.discard (AttributeError); minimal input "
-           "(Ket(0) @ Bits(0) >> Measure(override_bits=True)).eval()")
-F9B_WHAT = ("Encode(n, constructive=False) = Measure(n, destructive=False).dagger() is declared "
-            "bit ** n -> qubit ** n but evaluates as qubit ** n @ bit ** n -> qubit ** n: circuits "
-            "containing it cannot be evaluated and the dagger of a circuit with "
-            "Measure(destructive=False) is ill-typed (AxiomError); minimal input "
-            "(Bits(0) >> Encode(constructive=False)).eval()")
-
-
 def run(tier, seed):
     import cq_impl as ci
     rep = Report("C12", tier, seed)
@@ -692,21 +702,22 @@ def run(tier, seed):
             reqs.append((("dagger",), [0, [1, p]]))
         if 3 in c["obs"] or 5 in c["obs"]:
             reqs.append((("init",), [0, [4, p]]))
+        if 3 in c["obs"]:
+            reqs.append((("init_auto",), [1, [4, p]]))
         if "born" in c:
             reqs.append((("born",), [1, c["born"][0]]))
         if "marginal" in c:
             reqs.append((("marginal",), [0, c["marginal"][0]]))
         c["reqs"] = reqs
-    # ---- the implementation
-    for c in cases:
-        c["impl"] = {}
-        by_prog = {}
-        for key, r in c["reqs"]:
-            by_prog.setdefault(common.to_sexp(r[1]), []).append((key, r))
-        for group in by_prog.values():
-            outs = ci.observe_many(group[0][1][1], [r[0] for _, r in group])
-            for key, r in group:
-                c["impl"][key] = outs[r[0]]
+    # ---- the implementation (a pool of forked workers; every case is independent)
+    results = impl_parallel(ci, cases)
+    for c, (outs, counts, unknown) in zip(cases, results):
+        c["impl"] = outs
+        for k, v in counts.items():
+            ci.COUNTS[k] += v
+        for name in unknown:
+            if name not in ci.UNKNOWN_CLASSES:
+                ci.UNKNOWN_CLASSES.append(name)
     # ---- the model
     flat_reqs = [(i, key, r) for i, c in enumerate(cases) for key, r in c["reqs"]]
     answers = common.run_model_parallel("cq", [r for _, _, r in flat_reqs])
@@ -764,9 +775,8 @@ def run(tier, seed):
                          c, request, impl, model)
             continue
         if types is None:
-            rep.count("skipped:ill-typed-but-not-marked")
-            continue
-        f9, f9b = triggers(ci, p)
+            raise RuntimeError("generator produced an ill-typed request that is not marked as "
+                               "malformed: %s" % ci.pretty_request(request))
 
         def evaluates(key, r, what):
             """O_evaluates on one request; returns the value or None."""
@@ -774,17 +784,6 @@ def run(tier, seed):
             if a[0] == 0:
                 ver.ok("O_evaluates")
                 return a[1]
-            same = ci.same_outcome(a, m, ATOL)
-            pdag = r[1][0] == 1 and r[1][1] is p          # the extra dagger request of the case
-            t9, t9b = (f9, f9b) if not pdag else triggers(ci, r[1])
-            if same and a[1] == ci.ERR["AttributeError"] and t9:
-                rep.known_finding("F9", F9_WHAT)
-                rep.count("known:F9")
-                return None
-            if same and a[1] == ci.ERR["AxiomError"] and t9b:
-                rep.known_finding("F9b", F9B_WHAT)
-                rep.count("known:F9b")
-                return None
             ver.fail("O_evaluates", "%s of a well-typed circuit raises %s"
                      % (what, ci.err_name(a[1])), c, r, a, m)
             return None
@@ -793,7 +792,7 @@ def run(tier, seed):
         if c["obs"][0] == 0:
             val = evaluates(main_key, request, "eval(mixed=True)")
         flat = ci.flatten(p)
-        clean = not f9 and not f9b
+        clean = True
         # ---- O_ref
         if val is not None and flat is not None and clean:
             ref = ci.reference(flat[0], flat[2])
@@ -813,8 +812,8 @@ def run(tier, seed):
                          c["model"][("obs", 2)])
         # ---- O_double
         plain = c["impl"].get(("obs", 1))
-        if val is not None and boxes is not None and all(ci.is_pure_box(b) for b in boxes) \
-                and types[0].count(B) == 0 and plain is not None:
+        if val is not None and flat is not None and all(ci.is_pure_box(b) for _, b in flat[2]) \
+                and B not in flat[0] and plain is not None:
             if plain[0] == 0 and plain[1][0] == "plain" and ci.same_value(
                     val, double_value(plain[1][1], plain[1][2], plain[1][3]), ATOL):
                 ver.ok("O_double")
@@ -855,7 +854,7 @@ def run(tier, seed):
                 else:
                     ver.fail("O_marginal", "discarding a wire is not the marginal / partial trace",
                              c, request, impl, model, before=ci.jsonable(bv))
-            elif not (f9 or f9b):
+            else:
                 ver.fail("O_marginal", "the circuit before the discard does not evaluate", c,
                          [0, base], bv, c["model"][("marginal",)])
         # ---- O_adjoint
@@ -864,8 +863,8 @@ def run(tier, seed):
             dval = evaluates(("dagger",), dreq, "eval(mixed=True) of the dagger")
             if dval is not None and val is not None:
                 if nonreal_mixed_scalar(ci, p):
-                    rep.count("side:dagger-with-non-real-mixed-scalar (not judged)")
-                elif ci.same_value(dval, adjoint_value(val), ATOL):
+                    rep.count("adjoint:with-non-real-mixed-scalar")
+                if ci.same_value(dval, adjoint_value(val), ATOL):
                     ver.ok("O_adjoint")
                 else:
                     ver.fail("O_adjoint", "eval(c.dagger()) is not the adjoint of eval(c)", c, dreq,
@@ -895,26 +894,44 @@ def run(tier, seed):
             if key not in c["impl"]:
                 continue
             got = evaluates(key, [obs, p], name)
-            if got is None or flat is None or not clean:
+            if got is None or flat is None:
                 continue
+            oracle = "O_counts" if obs == 3 else "O_measure"
+            iflat = ci.init_and_discard_flat(flat)
             good, why = True, ""
+            if obs == 3:
+                # get_counts() reads init_and_discard().eval(): a plain Tensor when that circuit
+                # is not mixed (then pure scalars / post-selections enter as amplitudes)
+                auto = c["impl"][("init_auto",)]
+                if auto[0] != 0:
+                    good, why = False, "init_and_discard().eval() raises"
+                elif not (got[1].shape == auto[1][-1].shape
+                          and numpy.allclose(got[1], auto[1][-1].real, atol=ATOL, rtol=0)):
+                    good, why = False, "differs from init_and_discard().eval()"
+                born_applies = syn_is_mixed(ci, iflat) or not any(
+                    ci.is_pure_box(b) for _, b in iflat[2])
+                if not born_applies:
+                    rep.count("side:get_counts-of-a-non-mixed-circuit-with-pure-boxes (amplitudes, "
+                              "not judged against the mixed evaluation)")
+            else:
+                born_applies = True
             init = c["impl"][("init",)]
-            if init[0] != 0:
-                good, why = False, "init_and_discard().eval(mixed=True) raises"
-            elif init[1][0] != "cq" or init[1][1:3] != [0, 0] or init[1][4] != 0:
-                good, why = False, "init_and_discard() is not a map from CQ() to bits"
-            elif not (got[1].shape == init[1][5].shape
-                      and numpy.allclose(got[1], init[1][5].real, atol=ATOL, rtol=0)):
-                good, why = False, "differs from the evaluation of init_and_discard()"
-            if good:
-                iflat = ci.init_and_discard_flat(flat)
+            if good and born_applies:
+                if init[0] != 0:
+                    good, why = False, "init_and_discard().eval(mixed=True) raises"
+                elif init[1][0] != "cq" or init[1][1:3] != [0, 0] or init[1][4] != 0:
+                    good, why = False, "init_and_discard() is not a map from CQ() to bits"
+                elif not (got[1].shape == init[1][5].shape
+                          and numpy.allclose(got[1], init[1][5].real, atol=ATOL, rtol=0)):
+                    good, why = False, "differs from the mixed evaluation of init_and_discard()"
+            if good and born_applies:
                 ref = ci.reference(iflat[0], iflat[2])
                 if not (got[1].shape == ref[5].shape
                         and numpy.allclose(got[1], ref[5].real, atol=ATOL, rtol=0)):
-                    good, why = False, "differs from the independent reference of Bits(0)/Ket(0) >> c >> Discard"
-            if good and tp and abs(got[1].sum() - 1) > ATOL:
-                good, why = False, "does not sum to 1 on a trace-preserving circuit"
-            oracle = "O_counts" if obs == 3 else "O_measure"
+                    good, why = False, ("differs from the independent reference of "
+                                        "Bits(0)/Ket(0) >> c >> Discard")
+            if good and tp and (abs(got[1].sum() - 1) > ATOL or (got[1].real < -ATOL).any()):
+                good, why = False, "is not a probability distribution on a trace-preserving circuit"
             if good:
                 ver.ok(oracle)
             else:
@@ -937,11 +954,11 @@ def run(tier, seed):
     rep.extra["impl_counts"] = dict(ci.COUNTS, unknown_classes=list(ci.UNKNOWN_CLASSES))
     settle(rep, ci, proof_ok)
     return rep.finish(
-        rule="cases: corpus (minimal inputs of F9 / F9b; every variant of Measure / Encode for n <= 2 "
+        rule="cases: corpus (minimal inputs of the repaired F9 / F9b; every variant of Measure / Encode for n <= 2 "
              "and all flags, Discard / MixedState of every type of <= 3 wires, Bits, Copy, Match, "
              "ClassicalGates with integer / complex / stochastic data and daggered, the four Swaps, "
              "pure and mixed scalars, gates; docstring examples, Bell / teleport-like circuits), "
-             "placements (25 boxes + swaps + two-wire discards at every offset of every interleaving "
+             "placements (29 boxes + swaps + two-wire discards at every offset of every interleaving "
              "of <= 2 bits and <= 2 qubits), random mixed circuits (<= 6 boxes, <= 2 bits + 2 qubits "
              "at every layer, grid phases k/16), the trace-preserving class from the empty domain, "
              "pure circuits, state >> Measure (Born), c >> Discard(wire) (marginals), dagger / >> / @ "
@@ -966,12 +983,13 @@ def run(tier, seed):
             "tensor.Functor's evaluation of CQMap.tensor's swap network is C09/C10's subject; the "
             "model computes the closed form (proved equal to the network on the model level) and "
             "the whole evaluation is compared",
-            "the DISCOPY_VERIF hook is on: an ill-typed dagger is refused with VerifHookError, "
-            "reported as AxiomError (the class its evaluation raises without the hook)",
-            "known findings F9 and F9b are modelled bug-compatibly and recognised only when the "
-            "implementation equals the model and the trigger box is evaluated; the dagger of a "
-            "non-real mixed scalar (Scalar.dagger drops is_mixed) is outside C12's statement and "
-            "is not judged by O_adjoint",
+            "the DISCOPY_VERIF hook is on: a VerifHookError (ill-typed diagram built by the library) "
+            "is reported as AxiomError and is a failure of O_evaluates",
+            "no known findings: F9 and F9b were repaired upstream (77ff08b, 1971467), every oracle "
+            "failure is a violation; Scalar.dagger keeps is_mixed since 58fd18f and O_adjoint judges "
+            "circuits with non-real mixed scalars too; "
+            "get_counts() of a NON-mixed circuit reads the plain tensor (amplitudes): judged "
+            "against init_and_discard().eval() only, unless the circuit has no pure box",
             "probabilities being non-negative is checked numerically (oracle), not proved: the "
             "abstract *-ring has no order",
         ],
